@@ -255,3 +255,13 @@ package fs
 //@   requires inv: mmapInv(f) && f.mmapSize >= f.size && 0 <= start && start <= end
 //@   ensures [C17] eof: end > f.size ==> err == io.EOF
 //@   ensures [C17] view: err == nil ==> end <= f.size && len(s) == int(end - start) && arr(s) == arr(f.data) && off(s) == off(f.data) + int(start)
+
+// ---- directory listing ---------------------------------------------------------------------------------------
+//@ ghost var dentName map[ref]string
+
+// ReadDir lists exactly the names that exist in the directory, each once
+//@ func (fsys FileSystem) ReadDir(name string) (entries []os.DirEntry, err error)
+//@   requires fs: fsys != nil
+//@   ensures listed: err == nil ==> len(entries) >= 0 && (len(entries) == 0 || fresh(entries)) && forall q int :: off(entries) <= q && q < off(entries) + len(entries) ==> contents(entries)[q] != nil && dirFid[fsys][dentName[contents(entries)[q]]] != 0
+//@   ensures complete: err == nil ==> forall n string :: dirFid[fsys][n] != 0 ==> exists q int :: off(entries) <= q && q < off(entries) + len(entries) && dentName[contents(entries)[q]] == n
+//@   ensures err: err != nil ==> isIOErr(err)
